@@ -6,6 +6,7 @@ VERIF = os.path.dirname(os.path.dirname(os.path.dirname(os.path.abspath(__file__
 REPO = os.environ.get("VERIF_REPO", "/repo")
 TLA_CP = "/opt/veriftools/tla/tla2tools.jar:/opt/veriftools/tla/CommunityModules-deps.jar"
 GOENV = dict(os.environ, GOFLAGS="-mod=mod", GOPROXY="off", GOSUMDB="off", GOTOOLCHAIN="local")
+os.environ.setdefault("GOGC", "400")  # the library allocates heavily per call; fewer GC cycles for the harness processes
 NCPU = os.cpu_count() or 4
 
 
@@ -116,7 +117,8 @@ class Ctx:
         tl = subprocess.Popen(self.tlc_cmd(module, cfg, workers, extra), cwd=self.spec, stdout=subprocess.PIPE,
                               stderr=subprocess.STDOUT, env=e)
         rp = subprocess.Popen([self.harness, "replay", "-prop", self.prop, "-log", logp, "-out", sump,
-                               "-seed", str(self.seed), "-workers", str(NCPU), "-reps", str(reps)],
+                               "-seed", str(self.seed), "-workers", str(NCPU), "-reps", str(reps)]
+                              + (["-allvariants"] if self.tier == "thorough" else []),
                               stdin=tl.stdout, stdout=subprocess.PIPE, stderr=subprocess.PIPE)
         tl.stdout.close()
         try:
